@@ -415,7 +415,7 @@ func c03r4(r *R) {
 		oP.Check(reachesAfter(sid[0].I, ex1[0].I) && reachesAfter(ex1[0].I, dw[0].I) && instrDominates(sid[0].I, dw[0].I), "priority entry parts are not written in the order stream:exclusive:dependency:weight")
 	}
 	comma := find(func(w bufWrite) bool {
-		return w.Const && w.Text == "," && hasGuardContaining(c.guardStrs(w.I.Block()), "+", " < builtin.len(p0.Priorities[:")
+		return w.Const && w.Text == "," && hasGuardContaining(c.guardStrs(w.I.Block()), "+", " < "+minE+")") && hasGuard(c.guardStrs(w.I.Block()), "-(0 == "+minE+")")
 	})
 	if oP.Check(len(comma) == 1, "expected one ',' between priority entries, found %d", len(comma)) {
 		gs := c.guardStrs(comma[0].I.Block())
